@@ -1291,7 +1291,7 @@ def _is_std_iter(d):
 
 
 import re as _re_mod
-_re_iter_free = _re_mod.compile(r"^std::operator(==|!=|\+|-)$")
+_re_iter_free = _re_mod.compile(r"^std::(__detail::)?operator(==|!=|\+|-)$")
 
 
 def _elems(v):
